@@ -200,6 +200,12 @@ def check_property(prop, tier, seconds, max_plans, workers):
         stub, f = unknown_groups[key]
         plan = gen_plans(prop, base, stub["k"], 1, tier)[0]
         log = []
+        if os.environ.get("FMSIM_NO_SHRINK"):
+            # sensitivity sweeps over many seeded changes only need to know whether and by which
+            # check a change is caught: report the unminimised plan
+            path = orch.write_replay(plan, f, plan["seed"], tier)
+            violations.append((f, path))
+            continue
         small = orch.shrink(plan, f, orch.REPO, budget=150 if tier == "quick" else 400,
                             known=known, log=log, seconds=90 if tier == "quick" else 300)
         path = orch.write_replay(small, f, plan["seed"], tier)
